@@ -15,6 +15,8 @@ import (
 
 var repoDir = "/repo"
 
+const modulePath = "github.com/mazrean/kessoku"
+
 var loadPatterns = []string{
 	"./internal/kessoku", "./internal/llmsetup", "./internal/migrate",
 	"./internal/pkg/collection", "./internal/pkg/strings", "./internal/verifspec", ".", "./cmd/kessoku",
@@ -157,11 +159,13 @@ type Program struct {
 	decls    map[*types.Func]*ast.FuncDecl
 	declPkg  map[*types.Func]*packages.Package
 	Problems []string
-	Trusted  []string
-	PurePkgs map[string]bool
-	Axioms   map[string][]*ast.FuncDecl // package path -> axiom functions
-	TypeInvs []*TypeInv                 // //kvc:typeinv declarations
-	Finals   []*FinalField              // //kvc:final declarations
+	// TrustedPkg: assumption text -> package whose contract file introduced it (evidence lists only the relevant ones)
+	TrustedPkg map[string]string
+	Trusted    []string
+	PurePkgs   map[string]bool
+	Axioms     map[string][]*ast.FuncDecl // package path -> axiom functions
+	TypeInvs   []*TypeInv                 // //kvc:typeinv declarations
+	Finals     []*FinalField              // //kvc:final declarations
 }
 
 func isContractFile(name string) bool {
@@ -227,6 +231,15 @@ func loadProgram() (*Program, error) {
 
 var directiveRe = regexp.MustCompile(`^//kvc:(\w+)\s*(.*)$`)
 
+// trust records an unchecked assumption introduced by the contract files of package pk.
+func (p *Program) trust(pk *packages.Package, text string) {
+	p.Trusted = append(p.Trusted, text)
+	if p.TrustedPkg == nil {
+		p.TrustedPkg = map[string]string{}
+	}
+	p.TrustedPkg[text] = pk.PkgPath
+}
+
 func (p *Program) problem(format string, a ...any) {
 	p.Problems = append(p.Problems, fmt.Sprintf(format, a...))
 }
@@ -269,13 +282,13 @@ func (p *Program) parseContractFile(pk *packages.Package, f *ast.File) {
 						fi.Model = owner
 						fi.MPkg = pk
 					}
-					p.Trusted = append(p.Trusted, "model of "+fi.Key+" (inlined, trusted)")
+					p.trust(pk, "model of "+fi.Key+" (inlined, trusted)")
 				} else {
 					fi.Kind = KContract
 					fi.Spec = p.parseSpec(pk, owner, fi)
 					if fi.Decl == nil || fi.Decl.Body == nil {
 						fi.Spec.Trusted = true
-						p.Trusted = append(p.Trusted, "contract of "+fi.Key+" (no body in repo, assumed)")
+						p.trust(pk, "contract of "+fi.Key+" (no body in repo, assumed)")
 					}
 				}
 			case "final":
@@ -302,11 +315,17 @@ func (p *Program) parseContractFile(pk *packages.Package, f *ast.File) {
 					}
 					ff := &FinalField{Key: fieldKey(structName(tn.Type()), fv.Name()), PkgPath: pk.PkgPath, Name: spec, Sort: fv.Type()}
 					if fv.Exported() {
-						ff.Breaches = append(ff.Breaches, "field "+spec+" is exported")
+						// an exported field can be assigned from any package of the module: scan them all
+						for path, other := range p.Pkgs {
+							if other != pk && strings.HasPrefix(path, modulePath) && len(other.Syntax) > 0 {
+								ff.Breaches = append(ff.Breaches, p.fieldAssignments(other, fv)...)
+							}
+						}
 					}
 					ff.Breaches = append(ff.Breaches, p.fieldAssignments(pk, fv)...)
+					sort.Strings(ff.Breaches)
 					p.Finals = append(p.Finals, ff)
-					p.Trusted = append(p.Trusted, "field "+spec+" is assigned only at construction (syntactic scan on every run); ModifiesAll calls keep it")
+					p.trust(pk, "field "+spec+" is assigned only at construction (syntactic scan on every run); ModifiesAll calls keep it")
 				}
 			case "typeinv":
 				parts := strings.Fields(rest)
@@ -330,14 +349,14 @@ func (p *Program) parseContractFile(pk *packages.Package, f *ast.File) {
 				}
 				ti.Breaches = p.encapsulationBreaches(ti)
 				p.TypeInvs = append(p.TypeInvs, ti)
-				p.Trusted = append(p.Trusted, "type invariant "+owner.Name.Name+" of "+parts[0]+" assumed at entries and after ModifiesAll calls (encapsulation checked syntactically; methods prove it as a postcondition)")
+				p.trust(pk, "type invariant "+owner.Name.Name+" of "+parts[0]+" assumed at entries and after ModifiesAll calls (encapsulation checked syntactically; methods prove it as a postcondition)")
 			case "axiom":
 				if owner == nil {
 					p.problem("%s: //kvc:axiom must be the doc comment of a function", p.Fset.Position(c.Pos()))
 					continue
 				}
 				p.Axioms[pk.PkgPath] = append(p.Axioms[pk.PkgPath], owner)
-				p.Trusted = append(p.Trusted, "axiom "+owner.Name.Name+" (assumed)")
+				p.trust(pk, "axiom "+owner.Name.Name+" (assumed)")
 			case "split":
 				fi := p.resolveFunc(pk, rest)
 				if fi == nil {
@@ -348,7 +367,7 @@ func (p *Program) parseContractFile(pk *packages.Package, f *ast.File) {
 			case "purepkg":
 				if !p.PurePkgs[rest] {
 					p.PurePkgs[rest] = true
-					p.Trusted = append(p.Trusted, "every function of package "+rest+" is an uninterpreted, heap-independent function of its arguments")
+					p.trust(pk, "every function of package "+rest+" is an uninterpreted, heap-independent function of its arguments")
 				}
 			case "inline", "pure":
 				fi := p.resolveFunc(pk, rest)
@@ -360,7 +379,7 @@ func (p *Program) parseContractFile(pk *packages.Package, f *ast.File) {
 					fi.Kind = KInline
 				} else {
 					fi.Kind = KPure
-					p.Trusted = append(p.Trusted, "pure (uninterpreted, heap-independent): "+fi.Key)
+					p.trust(pk, "pure (uninterpreted, heap-independent): "+fi.Key)
 				}
 			case "loop":
 				// //kvc:loop <FuncKey> "anchor"
